@@ -761,6 +761,14 @@ class PendingAugAssign(PendingNode[AugAssign]):
             tmp_slice_name = Name(id=ol_name(OL_AUGASSIGN_SLICE_TMP))
             target = self.node.target
             subscript_parent = expr_transf(self.nsp, target.value)
+            if not isinstance(target.value, Name):
+                # save the subscripted object to a tmp (before the slice expr)
+                # to make sure the object expr only runs once.
+                tmp_parent_name = Name(id=ol_name(OL_AUGASSIGN_TMP))
+                return_list.append(
+                    NamedExpr(target=tmp_parent_name, value=subscript_parent)
+                )
+                subscript_parent = tmp_parent_name
 
             slice_expr = target.slice
             if isinstance(slice_expr, Slice):
@@ -806,6 +814,12 @@ class PendingAugAssign(PendingNode[AugAssign]):
         elif isinstance(self.node.target, Attribute):
             target = self.node.target
             attr_parent = expr_transf(self.nsp, target.value)
+            if not isinstance(target.value, Name):
+                # save the object to a tmp
+                # to make sure the object expr only runs once.
+                tmp_parent_name = Name(id=ol_name(OL_AUGASSIGN_TMP))
+                return_list.append(NamedExpr(target=tmp_parent_name, value=attr_parent))
+                attr_parent = tmp_parent_name
             return_list.append(
                 NamedExpr(
                     target=tmp_target_name,
